@@ -3,7 +3,7 @@
 #![allow(dead_code)]
 use std::collections::{BTreeMap, BTreeSet};
 use std::sync::atomic::{AtomicBool, AtomicUsize, Ordering};
-use std::time::{Duration, Instant};
+use std::time::Instant;
 
 use explorer::{h64, DfsStats, Report, Value};
 
@@ -143,11 +143,10 @@ impl Acc {
 }
 
 /// Run `f(index, item, acc)` for every item on `threads` workers (dynamic distribution); returns
-/// the merged accumulator.  `wall`: stop handing out items after this time (marks `capped`).
-pub fn par_for<T: Sync>(items: &[T], threads: usize, wall: Duration, f: impl Fn(usize, &T, &mut Acc) + Sync) -> Acc {
+/// the merged accumulator.  `deadline`: stop handing out items after this instant (marks `capped`).
+pub fn par_for<T: Sync>(items: &[T], threads: usize, deadline: Instant, f: impl Fn(usize, &T, &mut Acc) + Sync) -> Acc {
     let next = AtomicUsize::new(0);
     let capped = AtomicBool::new(false);
-    let start = Instant::now();
     let threads = threads.max(1);
     let mut total = Acc::default();
     let parts: Vec<Acc> = std::thread::scope(|s| {
@@ -160,7 +159,7 @@ pub fn par_for<T: Sync>(items: &[T], threads: usize, wall: Duration, f: impl Fn(
                         if i >= items.len() {
                             break;
                         }
-                        if start.elapsed() > wall {
+                        if Instant::now() > deadline {
                             capped.store(true, Ordering::SeqCst);
                             break;
                         }
